@@ -39,6 +39,8 @@ def cases(tier, seed):
 def _weights(n, tier, seed):
     pal = PALETTES[seed % len(PALETTES)]
     out = [None] + [list(w) for w in itertools.product(pal, repeat=n)]
+    if n <= 2:  # fractional weights whose total per class is below 1 (normalised weights)
+        out += [list(w) for w in itertools.product((0.25, 0.5), repeat=n)]
     if tier != "quick":
         if n <= 3:
             out += [list(w) for w in itertools.product((1, 2, 3), repeat=n) if 3 in w]
